@@ -237,7 +237,7 @@ Fixpoint run_ops1 (fixed : bool) (base : Divider) (fuel : nat) (known : list nat
       let '(sm1, (tp, tx)) := Prio1Sim.apply_op fixed base fuel sm code a b (negb (stl =? 0)) in
       let s1 := Prio1Sim.ps_st sm1 in
       let seg := rev (firstn (length (Prio1.calls s1) - before) (Prio1.calls s1)) in
-      let known1 := if orb (code =? 1) (orb (code =? 2) (code =? 8)) then insert_nat (Z.to_nat a) known else known in
+      let known1 := if orb (code =? 1) (orb (code =? 2) (andb (code =? 8) (negb (is_done1 (Prio1Sim.ps_st sm))))) then insert_nat (Z.to_nat a) known else known in
       let '(rest, smf) := run_ops1 fixed base fuel known1 sm1 r in
       ([Z.of_N tp; Z.of_N tx; Z.of_nat (length (Prio1.outq s1)); (if is_done1 s1 then 0 else Z.of_nat (length (Prio1.cmds s1))); bool_z (is_done1 s1);
         Z.of_nat (length seg)] ++ flat_map enc_call seg ++ enc_consumed_ids s1 known1 ++
